@@ -520,6 +520,101 @@ class MatchGen:
         return prog, " ".join(line), len(vals)
 
 
+def object_reorder_case(rng):
+    """A struct of 2-3 enum fields matched by 2-3 arms whose object patterns list the fields in
+    DIFFERENT orders with refutable sub-patterns and no catch-all; every combination of variants is
+    run.  (Exhaustive in declaration order / written order are different questions: the family C07
+    calls `object-reorder`.)"""
+    g = MatchGen.__new__(MatchGen)
+    g.rng = rng; g.allow_dup = False; g.nid = 0; g.int_ids = []
+    g.defs = [("P",)]
+    nen = rng.range(1, 2)
+    for _ in range(nen):
+        nv = rng.range(2, 3)
+        g.defs.append(("E", [[] if (j == 0 or rng.chance(1, 2)) else [0] for j in range(nv)]))
+    nf = rng.range(2, 3)
+    g.defs.append(("S", [rng.range(1, nen) for _ in range(nf)]))
+    st = len(g.defs) - 1
+    fields = g.defs[st][1]
+
+    def sub(ft, refutable):
+        if not refutable:
+            return "_", ["w"]
+        j = rng.below(len(g.defs[ft][1]))
+        tys = g.defs[ft][1][j]
+        return (f"K{j}" + ("(" + ", ".join("_" for _ in tys) + ")" if tys else ""),
+                ["v", str(ft), str(j), str(len(tys))] + ["w"] * len(tys))
+
+    arms = []
+    shape = rng.below(3)
+    same_enum = all(f == fields[0] for f in fields)
+    if shape < 2 and same_enum:
+        # complementary arms: arm k refutes exactly one field with variant k of the enum, so that the
+        # variants used cover the enum.  shape 0: always the SAME field (truly exhaustive, written at
+        # different positions); shape 1: the FIRST WRITTEN field of each arm, which is a different
+        # declared field from arm to arm (exhaustive only if rows were read in written order).
+        ft = fields[0]
+        nvs = len(g.defs[ft][1])
+        target = rng.below(nf)
+        for k in range(nvs):
+            order = rng.shuffle(list(range(nf)))
+            if shape == 1:
+                first = (target + k) % nf
+                order = [first] + [o for o in order if o != first]
+            elif k % 2 == 1:
+                order = [o for o in order if o != target] + [target]
+            tys = g.defs[ft][1][k]
+            refuted = order[0] if shape == 1 else target
+            subs = []
+            for o in order:
+                if o == refuted:
+                    subs.append((f"K{k}" + ("(" + ", ".join("_" for _ in tys) + ")" if tys else ""),
+                                 ["v", str(ft), str(k), str(len(tys))] + ["w"] * len(tys)))
+                else:
+                    subs.append(("_", ["w"]))
+            src = "{ " + ", ".join(f"f{o} as {x[0]}" for o, x in zip(order, subs)) + " }"
+            toks = ["o", str(nf), str(nf)]
+            for o, x in zip(order, subs):
+                toks += [str(o)] + x[1]
+            arms.append((src, toks, []))
+    narms = 0 if arms else rng.range(2, 4)
+    orders = []
+    for a in range(narms):
+        order = rng.shuffle(list(range(nf)))
+        if a == 1 and order == orders[0]:
+            order = order[::-1]
+        orders.append(order)
+        refut = [rng.chance(3, 5) for _ in range(nf)]
+        if not any(refut):
+            refut[rng.below(nf)] = True
+        subs = [sub(fields[o], refut[k]) for k, o in enumerate(order)]
+        src = "{ " + ", ".join(f"f{o} as {x[0]}" for o, x in zip(order, subs)) + " }"
+        toks = ["o", str(nf), str(nf)]
+        for o, x in zip(order, subs):
+            toks += [str(o)] + x[1]
+        arms.append((src, toks, []))
+    # all combinations of variants (payload ints fixed)
+    combos = [[]]
+    for ft in fields:
+        combos = [c + [j] for c in combos for j in range(len(g.defs[ft][1]))]
+    vals = []
+    for c in combos[:27]:
+        parts = []
+        toks = ["s", str(nf)]
+        for ft, j in zip(fields, c):
+            tys = g.defs[ft][1][j]
+            parts.append(f"T{ft}.K{j}(" + ", ".join("5" for _ in tys) + ")")
+            toks += ["c", str(ft), str(j), str(len(tys))] + [x for _ in tys for x in ("p", "5")]
+        vals.append((f"T{st}.init(" + ", ".join(parts) + ")", toks))
+    body = "match x { " + ", ".join(f"{a[0]} -> {i * 1000}" for i, a in enumerate(arms)) + " }"
+    main = "".join(f"    let _ = Process.println(Str.fromInt(Main.m({v[0]})));\n" for v in vals)
+    src = g.decls() + f"class Main {{\n  function m(x: T{st}): int = {body}\n  function main(): unit = {{\n{main}  }}\n}}\n"
+    line = ["match"] + g.enc_defs() + ["Y", str(st), "A", str(len(arms))] + [x for a in arms for x in a[1]] + \
+           ["V", str(len(vals))] + [x for v in vals for x in v[1]]
+    prog = {"sources": {"Main": src}, "entry": "Main", "std": False, "run": True, "ts": True, "timeout_ms": 8000}
+    return prog, " ".join(line), len(vals)
+
+
 def impl_match_answer(ans, nvals):
     """(acc, ends list) from a real run, or (None, why)."""
     if ans.get("check") != "done":
@@ -568,6 +663,9 @@ def parse_model_match(m):
 def check_matches(ctx, rng, n, stats, open_f):
     cases = []
     for i in range(n):
+        if i % 4 == 3:
+            cases.append(object_reorder_case(rng.fork()))      # arms listing the fields in different orders
+            continue
         g = MatchGen(rng.fork(), allow_dup=rng.chance(1, 8))
         cases.append(g.case())
     if True:   # regression probe: duplicate field (former C03-F3) must be rejected / untyped
@@ -609,7 +707,10 @@ def check_matches(ctx, rng, n, stats, open_f):
         if acc is None:
             ctx.violation("match tie: " + str(iends), {"protocol": "match", "line": line, "program": prog, "answer": a, "model": m,
                                                           "broken": "correspondence match (real checker/compiler/engine vs Model/MatchLower.lean)"}, no_input=True)
-            return
+            stats["match_tie_breaks"] = stats.get("match_tie_breaks", 0) + 1
+            if stats["match_tie_breaks"] >= 4 or len(ctx.violations) > 5:
+                return
+            continue
         if iends is None:
             continue
         if isinstance(iends, tuple):
@@ -636,12 +737,31 @@ def check_matches(ctx, rng, n, stats, open_f):
             if len(ctx.violations) > 3:
                 return
             continue
+        stats.setdefault("match_verdicts", {})
+        vk = f"checker={acc},model={d.get('acc')}"
+        stats["match_verdicts"][vk] = stats["match_verdicts"].get(vk, 0) + 1
+        if acc == "1" and d.get("acc") == "0":
+            # accepted although the model's exhaustiveness analysis (C07 on the declaration-order row)
+            # finds an uncovered value: the property fails as soon as such a value exists; the model's
+            # run of the lowered code names it (`fb`)
+            witness = [i for i, e in enumerate(mends) if e == "fb"]
+            ctx.violation("checker accepts a match that is not exhaustive (model verdict: non-exhaustive"
+                          + (f"; value #{witness[0]} of the program falls through in the model" if witness else "") + f"): impl ends {iends}",
+                          {"protocol": "match", "line": line, "program": prog, "answer": a, "model": m},
+                          no_input=not witness)
+            if len(ctx.violations) > 3:
+                return
+            continue
         if acc != d.get("acc") or (acc == "1" and iends != mends) or d.get("crash") == "1":
             ctx.violation(f"model/implementation disagreement on a match: impl acc={acc} ends={iends}; model {m}",
                           {"protocol": "match", "line": line, "program": prog, "answer": a, "model": m,
-                           "broken": "correspondence match (Model/MatchLower.lean + C07 vs real checker/compiler/engine): exhaustive_no_fallback_partial / lower_correct_partial no longer speak about this code"},
+                           "broken": "correspondence match (Model/MatchLower.lean + C07 vs real checker/compiler/engine): exhaustive_no_fallback / lower_correct no longer speak about this code"},
                           no_input=True)
-            return
+            # keep searching: a broken tie often comes with a concrete accepted-but-wrong program
+            stats["match_tie_breaks"] = stats.get("match_tie_breaks", 0) + 1
+            if stats["match_tie_breaks"] >= 4 or len(ctx.violations) > 5:
+                return
+            continue
         if acc == "1":
             stats["match_values"] += len(iends)
             for e in iends:
@@ -1069,8 +1189,42 @@ def gen_loops(rng):
     return {"sources": {"Main": src}, "entry": "Main", "std": False, "run": True, "ts": True, "timeout_ms": 8000}
 
 
+def gen_loop_closures(rng):
+    """A counted tail-recursive loop that keeps a derived value (`i * c`) and calls closures in its
+    body: 0-4 calls of a lambda parameter per iteration, lambdas capturing run-time values, a function
+    reference as a value, call results that are not used, output inside the loop (so that the loop
+    survives the optimiser's last round together with its temporaries)."""
+    c = rng.range(2, 5)
+    ncalls = rng.range(0, 4)
+    arg = rng.pick([f"i * {c}", f"i * {c} + 1", f"(i + 1) * {c}"])
+    if ncalls == 0:
+        step = f"acc + i * {c}"
+    else:
+        step = "acc" + "".join(f" + f({arg}{' + ' + str(k) if k else ''})" for k in range(ncalls))
+    noise = rng.pick(["", "      let _ = f(i);\n", "      let _ = g(acc);\n", "      let _ = Main.helper(i);\n"])
+    show = rng.pick(["      let _ = Process.println(Str.fromInt(acc));\n", "", "      let _ = Process.println(Str.fromInt(i * " + str(c) + "));\n"])
+    second = rng.chance(1, 2)
+    gparam = ", g: (int) -> int" if second or "g(acc)" in noise else ""
+    garg = ", g" if gparam else ""
+    walk = (f"  function walk(f: (int) -> int{gparam}, i: int, acc: int): int =\n    if i >= {rng.range(3, 12)} {{\n      acc\n    }} else {{\n"
+            + show + noise + f"      Main.walk(f{garg}, i + 1, {step}{' + g(i)' if second and gparam else ''})\n    }}\n")
+    lam = rng.pick(["(x0) -> x0 * 2 + k", "(x0) -> x0 + k * start", "(x0) -> Main.helper(x0) + k", "Main.helper"])
+    lam2 = rng.pick(["(y0) -> y0 - k", "Main.helper", "(y0) -> if y0 > k { y0 } else { k }"])
+    call = f"Main.walk({lam}{', ' + lam2 if gparam else ''}, start, 0)"
+    extra = ""
+    if rng.chance(1, 2):   # the loop nested in another counted loop
+        extra = (f"  function outer(n: int, s: int, k: int, start: int): int =\n    if n >= 3 {{ s }} else {{ Main.outer(n + 1, s + {call}, k, start + 1) }}\n")
+        final = "Main.outer(0, 0, k, start)"
+    else:
+        final = call
+    src = ("class Main {\n  function helper(x: int): int = x * 3 + 1\n" + walk + extra +
+           "  function main(): unit = {\n    let start = \"0\".toInt();\n    let k = \"7\".toInt();\n"
+           f"    let _ = Process.println(Str.fromInt({final}));\n    Process.println(\"done\")\n  }}\n}}\n")
+    return {"sources": {"Main": src}, "entry": "Main", "std": False, "run": True, "ts": True, "timeout_ms": 8000}
+
+
 def check_loops(ctx, rng, n, stats, open_f):
-    progs = [gen_loops(rng.fork()) for _ in range(n)]
+    progs = [gen_loops(rng.fork()) if i % 2 == 0 else gen_loop_closures(rng.fork()) for i in range(n)]
     for p, a in zip(progs, eval_programs(progs)):
         stats["loop_programs"] = stats.get("loop_programs", 0) + 1
         stats["gate_lines"].append((a.get("nerr", -1), a.get("compile")))
@@ -1293,7 +1447,7 @@ def run(ctx):
         ("matches", lambda: check_matches(ctx, rng.fork(), ctx.scale(120, 4000), stats, open_f)),
         ("multimodule", lambda: check_multimodule(ctx, rng.fork(), ctx.scale(12, 250), stats, open_f)),
         ("member-refs", lambda: check_member_refs(ctx, rng.fork(), stats, open_f)),
-        ("loops", lambda: check_loops(ctx, rng.fork(), ctx.scale(40, 800), stats, open_f)),
+        ("loops", lambda: check_loops(ctx, rng.fork(), ctx.scale(60, 1200), stats, open_f)),
         ("generated", lambda: check_generated(ctx, rng.fork(), ctx.scale(40, 600), stats, open_f)),
         ("mutants", lambda: check_mutants(ctx, rng.fork(), ctx.scale(320, 6000), stats, open_f)),
         ("gate", lambda: check_gate(ctx, stats)),
